@@ -7,6 +7,7 @@ cell functions handed to the Coq model) and (3) in exact complex-rational arithm
 whether the float evaluation was exact: tol = 0, else an absolute tolerance 1e-9 * scale).
 """
 import math
+import os
 from fractions import Fraction as F
 
 import numpy as np
@@ -1239,11 +1240,11 @@ def typed_case(rng, tier):
     return dict(kind="typed", regime="limits", meshes=meshes, fields=gen.fields, expr=e, expect="free", dta=dta)
 
 
-def reuse_case(rng, tier):
+def reuse_case(rng, tier, force_norm_probe=None):
     """operands that are used first (derived quantities, the expression itself), then changed in place
     through public calls, then used again; the model sees the state they report afterwards"""
     c = expr_case(rng, "quick", kind="reuse")
-    norm_probe = rng.random() < 0.3
+    norm_probe = (rng.random() < 0.3) if force_norm_probe is None else force_norm_probe
     if norm_probe:
         # an expression that goes through Field.norm (angle), evaluated before and after a write into the array
         meshes = [gen_mesh(rng, tier)]
@@ -1294,7 +1295,7 @@ def reuse_case(rng, tier):
     return c
 
 
-def nonfinite_case(rng, tier):
+def nonfinite_case(rng, tier, form=None, mask=None, dtype=None):
     """zero cells (whole vectors) that are masked invalid, and expressions that are non-finite exactly there:
     x/0, 0/0, 0**-1, inf*0, inf-inf; also the same data with the zeros left valid"""
     meshes = [gen_mesh(rng, tier)]
@@ -1302,11 +1303,11 @@ def nonfinite_case(rng, tier):
         meshes = [gen_mesh(rng, tier)]
     ncell = math.prod(meshes[0]["n"])
     gen = Gen(rng, tier, "exact", meshes, allow_cplx=False)
-    dt = rng.choice(["float", "float", "float", "complex", "float32"])
+    dt = dtype or rng.choice(["float", "float", "float", "complex", "float32"])
     zeros = [rng.random() < 0.35 for _ in range(ncell)]
     zeros[rng.randrange(ncell)] = True
     zeros[(zeros.index(True) + 1) % ncell] = False
-    mask_kind = rng.choice(["norm", "norm", "norm", "norm+", "all", "inverse"])
+    mask_kind = mask or rng.choice(["norm", "norm", "norm", "norm+", "all", "inverse"])
 
     def field(nv, zero_cells=True, dtype=dt):
         fd = gen_field(rng, 0, meshes, nv, "exact", dtype)
@@ -1322,7 +1323,7 @@ def nonfinite_case(rng, tier):
         return ["leaf", len(gen.fields) - 1]
     k = rng.choice([1, 2, 3])
     b = field(1)                      # scalar with zero cells
-    form = rng.choice(["v/b", "v/b", "c/b", "v/v", "b**-1", "(c/b)*b", "(c/b)-(c/b)", "v/|v|", "np.divide", "b/b"])
+    form = form or rng.choice(["v/b", "v/b", "c/b", "v/v", "b**-1", "(c/b)*b", "(c/b)-(c/b)", "v/|v|", "np.divide", "b/b"])
     one = ["num", bool(rng.random() < 0.3), [g.qs(F(rng.randint(1, 6))), "0/1"]]
     if form == "v/b":
         e = ["bin", "div", None, field(k, zero_cells=rng.random() < 0.6), b]
@@ -1350,7 +1351,7 @@ def nonfinite_case(rng, tier):
                 form=form, mask=mask_kind)
 
 
-def arraylike_case(rng, tier):
+def arraylike_case(rng, tier, op=None, kind=None):
     """every method that takes 'a field or something array-like', driven with per-cell ndarrays, nested
     lists, (nvdim,) vectors and numbers on meshes with more than one cell"""
     meshes = [gen_mesh(rng, tier)]
@@ -1358,13 +1359,13 @@ def arraylike_case(rng, tier):
         meshes = [gen_mesh(rng, tier)]
     regime = rng.choice(["exact", "exact", "scale"])
     gen = Gen(rng, tier, regime, meshes, allow_cplx=False)
-    op = rng.choice(["angle", "angle", "angle", "dot", "cross", "stack", "add", "sub", "mul", "div"])
+    op = op or rng.choice(["angle", "angle", "angle", "dot", "cross", "stack", "add", "sub", "mul", "div"])
     k = 3 if op == "cross" else rng.choice([1, 2, 3, 4])
     a = gen.leaf(k, dtype=rng.choice(["float", "float", "int"]), reuse=False)
     kinds = ["arr", "arr", "nested", "vec"] + (["num"] if k == 1 and op not in ("dot", "cross") else [])
     if k == 1 and op in ("angle",):
         kinds = ["arr", "nested", "num"]
-    kind = rng.choice(kinds)
+    kind = kind if kind in kinds else rng.choice(kinds)
     if kind == "arr":
         b = gen.arr(k)
     elif kind == "nested":
@@ -1380,7 +1381,7 @@ def arraylike_case(rng, tier):
     return dict(kind="arraylike", regime=regime, meshes=meshes, fields=gen.fields, expr=e, expect="accept")
 
 
-def coincide_case(rng, tier):
+def coincide_case(rng, tier, kind=None, form=None, cont=None):
     """value coincidences: constants / second operands drawn from the field's own cell values, so that
     differences are exact zeros whose SIGN numpy defines; continued with sign-sensitive steps"""
     meshes = [gen_mesh(rng, tier)]
@@ -1392,7 +1393,9 @@ def coincide_case(rng, tier):
     a = gen.leaf(k, dtype="float", reuse=False)
     fa = gen.fields[a[1]]
     cell = rng.randrange(ncell)
-    kind = rng.choice(["num", "vec", "arr", "leaf"]) if k > 1 else rng.choice(["num", "num", "arr", "leaf"])
+    kind = kind or (rng.choice(["num", "vec", "arr", "leaf"]) if k > 1 else rng.choice(["num", "num", "arr", "leaf"]))
+    if kind == "vec" and k == 1:
+        kind = "num"
     if kind == "num":
         b = ["num", bool(rng.random() < 0.3), list(fa["vals"][cell * k + rng.randrange(k)])]
     elif kind == "vec":
@@ -1405,7 +1408,7 @@ def coincide_case(rng, tier):
         b = gen.leaf(k, dtype="float", reuse=False)
         fb = gen.fields[b[1]]
         fb["vals"] = [list(v) if rng.random() < 0.5 else w for v, w in zip(fa["vals"], fb["vals"])]
-    form = rng.choice(["b-a", "b-a", "a-b", "b+(-a)", "np.subtract(b,a)", "a*0"])
+    form = form or rng.choice(["b-a", "b-a", "a-b", "b+(-a)", "np.subtract(b,a)", "a*0"])
     if form == "b-a":
         d = ["bin", "sub", None, b, a]
     elif form == "a-b":
@@ -1418,7 +1421,7 @@ def coincide_case(rng, tier):
         d = ["bin", "uf2", "subtract", b, a]
     else:
         d = ["bin", "mul", None, ["un", "neg", None, a], ["num", False, ["0/1", "0/1"]]]
-    cont = rng.choice(["none", "none", "1/x", "1/x", "arctan2", "copysign", "signbit", "neg"])
+    cont = cont or rng.choice(["none", "none", "1/x", "1/x", "arctan2", "copysign", "signbit", "neg"])
     oracle_only = cont in ("arctan2", "copysign", "signbit")     # the sign of zero is not a rational
     if cont == "1/x":
         e = ["bin", "div", None, ["num", False, ["1/1", "0/1"]], d]
@@ -1436,7 +1439,7 @@ def coincide_case(rng, tier):
                 oracle_only=oracle_only, form=form, cont=cont)
 
 
-def extended_case(rng, tier):
+def extended_case(rng, tier, form=None):
     """extended-precision (np.longdouble / np.clongdouble) fields: result dtype and values compared exactly
     with the numpy expression evaluated in long double (oracle-only: no Coq record)"""
     meshes = [gen_mesh(rng, tier)]
@@ -1461,7 +1464,7 @@ def extended_case(rng, tier):
         return ["leaf", len(gen.fields) - 1]
     k = rng.choice([1, 2, 3])
     a = leaf(k, rng.choice(["longdouble", "longdouble", "clongdouble"]))
-    form = rng.choice(["un", "num", "vec", "ldarr", "leaf", "leaf64", "dot", "stack", "ufunc", "uf1", "comp"])
+    form = form or rng.choice(["un", "num", "vec", "ldarr", "leaf", "leaf64", "dot", "stack", "ufunc", "uf1", "comp"])
     if form == "un":
         e = ["un", rng.choice(["neg", "abs", "real", "imag", "conj", "pos"]), None, a]
     elif form == "uf1":
@@ -1496,30 +1499,247 @@ def extended_case(rng, tier):
                 oracle_only=True)
 
 
+# ------------------------------------------------------------------ directed core (identical in every run)
+def core_cases():
+    """one small group of directed cases per mechanism that a seeded change or a repaired defect exposed;
+    built from a fixed generator, so the list is the same for every seed and tier"""
+    import random
+    R = random.Random(424242)
+    Q = g.qs
+    out = []
+    m1 = dict(p1=["0/1"], p2=["3/1"], n=[3], dims=None)
+    m2 = dict(p1=["0/1", "-1/1"], p2=["2/1", "1/1"], n=[2, 2], dims=None)
+    m3 = dict(p1=["0/1", "0/1", "1/2"], p2=["2/1", "1/1", "5/2"], n=[2, 1, 2], dims=None)
+    dn = {1: ["x"], 2: ["x", "y"], 3: ["x", "y", "z"]}
+
+    def fld(fields, meshes, nv, dtype="float", vdims=None, vmap=None, valid=None, mesh=0, negative=False):
+        fd = gen_field(R, mesh, meshes, nv, "exact", dtype, plain=True)
+        fd.update(vdims=vdims, vmap=vmap, unit=None)
+        ncell = math.prod(meshes[mesh]["n"])
+        fd["valid"] = [True] * ncell if valid is None else [bool(valid[j % len(valid)]) for j in range(ncell)]
+        if negative:
+            for j in range(0, len(fd["vals"]), 2):
+                v = F(fd["vals"][j][0])
+                fd["vals"][j][0] = Q(-abs(v) if v != 0 else F(-3))
+        fields.append(fd)
+        return ["leaf", len(fields) - 1]
+
+    def add(tag, kind, meshes, fields, e, expect="accept", **kw):
+        out.append(dict(kind=kind, regime="exact", meshes=[dict(m) for m in meshes], fields=fields, expr=e,
+                        expect=expect, core=tag, **kw))
+
+    def num(v, np_=False, ct=None):
+        x = ["num", np_, [Q(F(v)), "0/1"]]
+        return x + [ct] if ct else x
+
+    def vec(vs, np_=False, seq="tuple", ct=None):
+        x = ["vec", np_, [[Q(F(v)), "0/1"] if not isinstance(v, complex) else [Q(F(v.real)), Q(F(v.imag))] for v in vs], seq]
+        return x + [ct] if ct else x
+
+    def arr(m, k, ct=None, cplx=False):
+        nc = math.prod(m["n"])
+        x = ["arr", k, [rnum(R, "exact", cplx=cplx) for _ in range(nc * k)]]
+        return x + [ct] if ct else x
+
+    # a1  << must not touch the left operand's mapping
+    for m in (m2, m3):
+        nd = len(m["n"])
+        d = dn[nd]
+        fs = []
+        a = fld(fs, [m], 2, vdims=["a", "b"], vmap={"a": d[0], "b": d[-1]})
+        b = fld(fs, [m], 2, vdims=["p", "q"], vmap={"p": d[-1], "q": d[0]})
+        add("a1", "expr", [m], fs, ["bin", "stack", None, a, b])
+        fs = []
+        a = fld(fs, [m], 2, vdims=["a", "b"], vmap={"b": d[0], "a": d[-1]})
+        s_ = fld(fs, [m], 1, vdims=["s"], vmap={"s": d[0]})
+        add("a1", "expr", [m], fs, ["bin", "stack", None, ["un", "neg", None, a], s_])
+        add("a1", "expr", [m], [dict(f) for f in fs], ["bin", "stack", None, a, s_])
+    # a2 / h7  ufunc(scalar, vector) and scalar (op) vector keep the vector's labels, both orders
+    for m in (m1, m2, m3):
+        nd = len(m["n"])
+        for vd, vm in ((["a", "b", "c"][:max(2, nd)], None), (None, None)):
+            k = max(2, nd)
+            fs = []
+            s_ = fld(fs, [m], 1)
+            labels = vd or dn[3][:k]
+            v = fld(fs, [m], k, vdims=vd, vmap={lab: dn[nd][(j + 1) % nd] for j, lab in enumerate(labels)})
+            for name in ("multiply", "add"):
+                add("a2", "commute", [m], [dict(f) for f in fs], ["bin", "uf2", name, s_, v])
+                add("a2", "commute", [m], [dict(f) for f in fs], ["bin", "uf2", name, v, s_])
+            add("h7", "commute", [m], [dict(f) for f in fs], ["bin", "mul", None, s_, v])
+            add("h7", "commute", [m], [dict(f) for f in fs], ["bin", "add", None, v, s_])
+    # a3 / h5  scalar (op) vector and ufuncs on two different meshes with equal n are refused
+    for m in (m1, m2, m3):
+        for how in ("far", "scaled", "cell"):
+            mm = [m, shifted_mesh(m, how, R)]
+            for op, arg in (("add", None), ("mul", None), ("sub", None), ("div", None), ("uf2", "add")):
+                fs = []
+                s_ = fld(fs, mm, 1, mesh=0)
+                v = fld(fs, mm, 3, mesh=1)
+                e = ["bin", op, arg, s_, v] if R.random() < 0.5 else ["bin", op, arg, v, s_]
+                add("a3", "reject", mm, fs, e, expect="reject", how=how, clearly_different=True, incompatible=False)
+    # b1  dot of complex fields is the plain sum of products
+    for m in (m1, m2):
+        for k in (2, 3):
+            fs = []
+            a = fld(fs, [m], k, "complex")
+            b = fld(fs, [m], k, "complex")
+            add("b1", "expr", [m], [dict(f) for f in fs], ["bin", "dot", "m", a, b])
+            add("b1", "expr", [m], [dict(f) for f in fs], ["bin", "dot", "op", b, a])
+            add("b1", "expr", [m], [dict(f) for f in fs], ["bin", "dot", "m", a, vec([1.5, -2, 0.5][:k])])
+            add("b1", "expr", [m], [dict(f) for f in fs], ["bin", "dot", "m", a, arr(m, k, cplx=True)])
+            add("b1", "expr", [m], [dict(f) for f in fs], ["bin", "dot", "op", vec([2, 0.25, -1][:k]), a])
+    # b2  array-like operands are not cast to the field's dtype
+    for m in (m1, m2):
+        for seq, np_ in (("tuple", False), ("list", False), ("tuple", True)):
+            fs = []
+            a = fld(fs, [m], 3, "int")
+            op = R.choice(["mul", "add", "sub", "div"])
+            add("b2", "expr", [m], fs, ["bin", op, None, a, vec([0.5, 1.5, 2.25], np_, seq)])
+        fs = []
+        a = fld(fs, [m], 2, "int")
+        add("b2", "expr", [m], fs, ["bin", "mul", None, a, ["arr", 2, [[Q(F(2 * j + 1, 4)), "0/1"] for j in range(2 * math.prod(m["n"]))]]])
+        fs = []
+        a = fld(fs, [m], 2, "float")
+        add("b2", "expr", [m], fs, ["bin", "mul", None, a, vec([1 + 2j, -0.5j], True)])
+        fs = []
+        a = fld(fs, [m], 2, "float")
+        add("b2", "expr", [m], fs, ["bin", "add", None, a, vec([0.5 + 1j, 2 - 1j], False)])
+        fs = []
+        a = fld(fs, [m], 2, "float")
+        add("b2", "expr", [m], fs, ["bin", "mul", None, a, arr(m, 2, cplx=True)])
+    # b3  cross leaves the left operand's mask alone
+    for m in (m1, m2, m3):
+        for arg in ("m", "op"):
+            fs = []
+            a = fld(fs, [m], 3)
+            b = fld(fs, [m], 3, valid=[True, False, True, False])
+            add("b3", "expr", [m], [dict(f) for f in fs], ["bin", "cross", arg, a, b])
+            add("b3", "expr", [m], [dict(f) for f in fs], ["bin", "add", None, ["bin", "cross", arg, a, b], a])
+    # c1  non-finite values in masked cells are numpy's
+    for form in ("v/b", "c/b", "v/v", "b**-1", "(c/b)*b", "(c/b)-(c/b)", "b/b"):
+        for mask in ("norm", "norm+"):
+            out.append(dict(nonfinite_case(R, "quick", form=form, mask=mask, dtype=R.choice(["float", "complex"])), core="c1"))
+    # c2  phase of real fields
+    for m in (m1, m2):
+        for dt in ("float", "int"):
+            fs = []
+            a = fld(fs, [m], 2, dt, negative=True)
+            add("c2", "expr", [m], fs, ["un", "phase", None, a])
+    # c3 / h2  array-like operands of angle, dot, cross, <<, + - * /
+    for op in ("angle", "angle", "angle", "dot", "cross", "stack", "mul", "sub"):
+        for kind in ("arr", "nested"):
+            out.append(dict(arraylike_case(R, "quick", op=op, kind=kind), core="c3"))
+    for m in (m1, m2):
+        fs = []
+        a = fld(fs, [m], 1)
+        add("h2", "arraylike", [m], fs, ["bin", "stack", None, a, arr(m, 2 if m["n"][0] != 2 else 3)])
+        fs = []
+        a = fld(fs, [m], 2)
+        add("h2", "arraylike", [m], fs, ["bin", "stack", None, a, arr(m, 1) + ["nested"]])
+    # d1  reflected subtraction where cells coincide with the constant (sign of zero)
+    for kind in ("num", "vec", "arr"):
+        for cont in ("none", "1/x", "arctan2", "copysign", "signbit"):
+            out.append(dict(coincide_case(R, "quick", kind=kind, form="b-a", cont=cont), core="d1"))
+    for form in ("a-b", "b+(-a)", "np.subtract(b,a)", "a*0"):
+        out.append(dict(coincide_case(R, "quick", form=form, cont="none"), core="d1"))
+    # d2  << refuses different meshes at every length scale
+    for m in (m1, m2, m3):
+        for msc in (-9, -12):
+            f_ = F(10) ** msc
+            ms = dict(m, p1=[Q(F(float(F(x) * f_))) for x in m["p1"]], p2=[Q(F(float(F(x) * f_))) for x in m["p2"]],
+                      ptype="float")
+            for how in ("cell", "ten", "far"):
+                mm = [ms, shifted_mesh(ms, how, R)]
+                fs = []
+                a = fld(fs, mm, R.choice([1, 2]), mesh=0)
+                b = fld(fs, mm, R.choice([1, 2]), mesh=1)
+                add("d2", "reject", mm, fs, ["bin", "stack", None, a, b], expect="reject", how=how, msc=msc,
+                    clearly_different=True, incompatible=False)
+    # d3  extended precision survives every result
+    for form in ("un", "num", "vec", "ldarr", "leaf", "leaf64", "dot", "stack", "ufunc", "uf1", "comp"):
+        out.append(dict(extended_case(R, "quick", form=form), core="d3"))
+    # e1  equal component count, different labels: still combined cell by cell
+    for m in (m1, m2):
+        for op, arg in (("add", None), ("mul", None), ("sub", None), ("div", None), ("dot", "m"), ("cross", "m"),
+                        ("angle", None), ("pow", None)):
+            if op == "pow":
+                continue
+            fs = []
+            a = fld(fs, [m], 3)
+            b = fld(fs, [m], 3, vdims=["mx", "my", "mz"])
+            add("e1", "expr", [m], fs, ["bin", op, arg, a, b])
+    # e2  abs keeps a non-default mapping
+    fs = []
+    a = fld(fs, [m3], 3, vdims=["a", "b", "c"], vmap={"a": "z", "b": "y", "c": "x"}, negative=True)
+    add("e2", "expr", [m3], fs, ["un", "abs", None, a])
+    fs = []
+    a = fld(fs, [m3], 3, vmap={}, negative=True)
+    add("e2", "expr", [m3], fs, ["un", "abs", None, a])
+    fs = []
+    a = fld(fs, [m2], 3, vmap={"x": "x", "y": "y", "z": "x"}, negative=True)
+    add("e2", "expr", [m2], fs, ["un", "abs", None, a])
+    fs = []
+    a = fld(fs, [m2], 2, vdims=["p", "q"], vmap={"q": "x", "p": "y"}, negative=True)
+    add("e2", "expr", [m2], fs, ["bin", "mul", None, ["un", "abs", None, a], num(2)])
+    # e3  number << field keeps the operand order
+    for m in (m1, m2):
+        for c_ in (num(2.5), num(3, ct="pyint"), ["num", False, [Q(F(1, 2)), Q(F(-2))]]):
+            fs = []
+            a = fld(fs, [m], 2)
+            add("e3", "expr", [m], fs, ["bin", "stack", None, c_, a])
+        fs = []
+        a = fld(fs, [m], 1)
+        add("e3", "expr", [m], fs, ["bin", "stack", None, vec([1, 2]), a])
+    # h1  number / tuple minus an unsigned field
+    for dt in ("uint8", "uint16"):
+        fs = []
+        a = fld(fs, [m2], 2, dt)
+        add("h1", "typed", [m2], fs, ["bin", "sub", None, num(2.5), a], expect="free", dta=dt)
+        fs = []
+        a = fld(fs, [m2], 2, dt)
+        add("h1", "typed", [m2], fs, ["bin", "sub", None, vec([0.5, 7.5], False, "list"), a], expect="free", dta=dt)
+    # h6  a labelled scalar broadcast against a constant vector / a vector field
+    fs = []
+    s_ = fld(fs, [m2], 1, vdims=["a"], vmap={"a": "x"})
+    v = fld(fs, [m2], 2)
+    add("h6", "expr", [m2], [dict(f) for f in fs], ["bin", "mul", None, s_, vec([1, 2])])
+    add("h6", "expr", [m2], [dict(f) for f in fs], ["bin", "uf2", "multiply", s_, v])
+    add("h6", "commute", [m2], [dict(f) for f in fs], ["bin", "mul", None, s_, v])
+    # h4  operands used, changed in place, used again (angle goes through Field.norm)
+    for _ in range(6):
+        out.append(dict(reuse_case(R, "quick", force_norm_probe=True), core="h4"))
+    for _ in range(6):
+        out.append(dict(reuse_case(R, "quick", force_norm_probe=False), core="h4"))
+    return out
+
+
 def generate(rng, tier):
-    cases = []
+    cases = core_cases()      # seed- and tier-independent directed core, always first
+    if os.environ.get("C03_CORE_ONLY"):
+        return cases
     q = tier == "quick"
-    for _ in range(380 if q else 2600):
+    for _ in range(300 if q else 2600):
         cases.append(expr_case(rng, tier))
-    for _ in range(130 if q else 700):
+    for _ in range(100 if q else 700):
         cases.append(commute_case(rng, tier))
-    for _ in range(30 if q else 150):
+    for _ in range(25 if q else 150):
         cases.append(stackcomp_case(rng, tier))
-    for _ in range(130 if q else 700):
+    for _ in range(110 if q else 700):
         cases.append(reject_case(rng, tier))
-    for _ in range(70 if q else 400):
+    for _ in range(60 if q else 400):
         cases.append(malformed_case(rng, tier))
-    for _ in range(130 if q else 700):
+    for _ in range(100 if q else 700):
         cases.append(typed_case(rng, tier))
-    for _ in range(130 if q else 700):
+    for _ in range(100 if q else 700):
         cases.append(reuse_case(rng, tier))
-    for _ in range(90 if q else 500):
+    for _ in range(70 if q else 500):
         cases.append(nonfinite_case(rng, tier))
-    for _ in range(110 if q else 600):
+    for _ in range(90 if q else 600):
         cases.append(arraylike_case(rng, tier))
-    for _ in range(100 if q else 500):
+    for _ in range(80 if q else 500):
         cases.append(coincide_case(rng, tier))
-    for _ in range(80 if q else 400):
+    for _ in range(60 if q else 400):
         cases.append(extended_case(rng, tier))
     return cases
 
